@@ -13,7 +13,9 @@ five discipline predicates, each the syntactic counterpart of a premise of `moni
                       (`Monitor.WellFormed`: all acts lie between `acq` and `rel`);
 * `readersPure`     — nothing is written while the lock is only read-held;
 * `singleSection`   — an exported method is at most one critical section, released on every path;
-* `noHandout`       — no exported method returns an alias of guarded memory that is written in place.
+* `noHandout`       — no exported method returns an alias of guarded memory that is written in place, nor keeps
+                      using one after it released the lock (`Handout.escape`);
+* `crossInstanceLocked` — a method called on another instance of the type (`pc.parent.…`) locks that instance.
 
 All functions are total and evaluated by `decide` on each regenerated row. Core Lean only.
 -/
@@ -106,6 +108,23 @@ def heldFreshCallees (t : TypeFacts) : Nat → Nat → Held → List Nat
       else if c.via == .own then heldFreshCallees t fuel c.callee h
       else [])
 
+/-- methods called on ANOTHER instance of the same type (the `parent` object, a `fresh` child), reached from
+`mi` through same-receiver calls, whatever lock of the calling receiver is held -/
+def crossCallees (t : TypeFacts) : Nat → Nat → List Nat
+  | 0, _ => []
+  | fuel + 1, mi =>
+    (getM t mi).calls.flatMap (fun c =>
+      if c.via == .parent || c.via == .fresh then [c.callee]
+      else if c.via == .own then crossCallees t fuel c.callee
+      else [])
+
+/-- The lock of the calling receiver does not protect another instance: a method invoked on another instance
+must take THAT instance's lock itself around every access to its guarded fields — i.e. entered without the
+lock, all its guarded accesses are lock-held (an `unsafe*` helper called on `pc.parent` is not). -/
+def crossInstanceLocked (all : List TypeFacts) (t : TypeFacts) (mi : Nat) : Bool :=
+  (crossCallees t (fuelOf t) mi).all (fun k =>
+    (effAcc all t (fuelOf t) k .n).all (fun a => !(guarded all t a.field) || a.held != .n))
+
 def noReentry (t : TypeFacts) (mi : Nat) : Bool :=
   let m := getM t mi
   m.sections.all (fun s => !s.nested) &&
@@ -185,7 +204,7 @@ def methodOkT (all : List TypeFacts) (t : TypeFacts) (mi : Nat) : Bool :=
   let m := getM t mi
   if m.exported then
     noReentry t mi && guardedAccess all t mi && readersPure all t mi && singleSection t mi && noHandout all t mi &&
-      factsConsistent all t mi
+      factsConsistent all t mi && crossInstanceLocked all t mi
   else
     m.sections.all (fun s => !s.nested && s.release != .leak)
 
@@ -244,6 +263,16 @@ def failuresOf (all : List TypeFacts) (ti mi : Nat) : List Failure :=
     (if singleSection t mi then [] else
       [{ type := t.name, method := m.name, theorem_ := "single_section",
          kind := (if releasesOk t (fuelOf t) mi then "nonlin" else "deadlock"), field := "", other := m.name, line := 0 }]) ++
+    (if crossInstanceLocked all t mi then [] else
+      let k := ((crossCallees t (fuelOf t) mi).filter (fun k =>
+        !((effAcc all t (fuelOf t) k .n).all (fun a => !(guarded all t a.field) || a.held != .n)))).head?
+      let kn := match k with | some k => (getM t k).name | none => ""
+      let fld : Option Nat := match k with
+        | some k => (((effAcc all t (fuelOf t) k .n).filter (fun (a : EAcc) => guarded all t a.field && a.held == Held.n)).map
+                      (fun (a : EAcc) => a.field)).head?.getD none
+        | none => none
+      [{ type := t.name, method := m.name, theorem_ := "cross_instance_calls_locked", kind := "crossrace",
+         field := fieldName t fld, other := kn, line := 0 }]) ++
     (((effHandouts t (fuelOf t) mi).filter (fun h => !(handoutOk all t h))).map (fun h =>
       { type := t.name, method := m.name, theorem_ := "no_unsynchronised_handout", kind := "handout",
         field := fieldName t (some h.field), other := writerOf all t (some h.field), line := h.line })).take 1
